@@ -44,7 +44,7 @@ fn images<T: Tier>(m: Matrix4<T>, p: [T; 3]) -> ([T; 3], T, [T; 3]) {
 
 fn boxes<T: Tier>(rep: &mut Report) {
     let ws = windows();
-    let ws: Vec<[R; 6]> = if rep.quick() { ws.into_iter().step_by(3).collect() } else { ws };
+    let ws: Vec<[R; 6]> = ws;
     rep.cases(
         "ortho+frustum",
         T::NAME,
@@ -98,7 +98,7 @@ fn boxes<T: Tier>(rep: &mut Report) {
 }
 
 fn fov_cases<T: Tier + Dom<M = Sh>>(rep: &mut Report) {
-    let fovs: Vec<f64> = if rep.quick() { vec![0.3, 1.0, PI / 2.0, 2.5] } else { (1..=15).map(|j| j as f64 * 0.2).collect() };
+    let fovs: Vec<f64> = if rep.quick() { (1..=15).map(|j| j as f64 * 0.2).collect() } else { (1..=155).map(|j| j as f64 * 0.02).collect() };
     let aspects: [f64; 4] = [0.5, 1.0, 16.0 / 9.0, -1.0];
     let nf: [(f64, f64); 4] = [(0.5, 1.0), (1.0, 100.0), (0.1, 3.0), (3.0, 3.5)];
     let dims = [fovs.len(), aspects.len(), nf.len(), 2];
@@ -157,7 +157,7 @@ fn fov_cases<T: Tier + Dom<M = Sh>>(rep: &mut Report) {
         },
     );
     // planar
-    let fovs: Vec<f64> = if rep.quick() { vec![-1.0, 0.0, 0.5, 2.0] } else { (-7..=14).map(|j| j as f64 * 0.2).collect() };
+    let fovs: Vec<f64> = if rep.quick() { (-7..=14).map(|j| j as f64 * 0.2).collect() } else { (-75..=150).map(|j| j as f64 * 0.02).collect() };
     let hs: [f64; 3] = [0.5, 2.0, 7.0];
     let nfs: [(f64, f64); 3] = [(1.0, 10.0), (0.5, 2.0), (10.0, 1.0)];
     let dims = [fovs.len(), aspects.len(), hs.len(), nfs.len(), 2];
